@@ -2,6 +2,8 @@
 //
 //	helper sleep                      block until a signal with default disposition arrives
 //	helper exit <code>                exit at once with that status
+//	helper sleepmk <dir> <obsdir>     trap SIGINT, announce readiness in <obsdir>/ready-<pid>, and on the
+//	                                  interrupt create <dir>/late/f before exiting with status 1
 //	helper probe <out.json>           write pid, cwd and environment to out.json
 //	helper deadline <mode> <ms> <log> log "start <pid> <unixnano>", then
 //	    block        sleep forever, signals have their default effect
@@ -18,6 +20,7 @@ import (
 	"fmt"
 	"os"
 	"os/signal"
+	"path/filepath"
 	"strconv"
 	"syscall"
 	"time"
@@ -36,11 +39,25 @@ func main() {
 	if len(os.Args) < 2 {
 		os.Exit(64)
 	}
+	// installed under the name hostcanary it stands for a program that only the PATH of the test process
+	// leads to: every run leaves a note with the PATH the caller gave it
+	if exe, err := os.Executable(); err == nil && filepath.Base(exe) == "hostcanary" {
+		os.WriteFile(filepath.Join(filepath.Dir(filepath.Dir(exe)), "obs", fmt.Sprintf("hostcanary-%d", os.Getpid())),
+			[]byte(os.Getenv("PATH")), 0o666)
+	}
 	switch os.Args[1] {
 	case "sleep":
 		for {
 			time.Sleep(time.Hour)
 		}
+	case "sleepmk":
+		c := make(chan os.Signal, 2)
+		signal.Notify(c, os.Interrupt)
+		os.WriteFile(fmt.Sprintf("%s/ready-%d", os.Args[3], os.Getpid()), []byte("ready"), 0o666)
+		<-c
+		os.MkdirAll(os.Args[2]+"/late", 0o777)
+		os.WriteFile(os.Args[2]+"/late/f", []byte("written while shutting down\n"), 0o666)
+		os.Exit(1)
 	case "exit":
 		code, _ := strconv.Atoi(os.Args[2])
 		os.Exit(code)
